@@ -171,6 +171,37 @@ theorem regular_accept_imp_restrictions {sis t p u} (h : Accepts sis t p u)
       have hm := hin hne
       exact signedIdx_entry hva.1 hm (hva.2 q hm)
 
+/-- **None removed.**  In an accepted regular update every root and every regular voting
+certificate of the predecessor still has a certificate with the same subject in the successor
+(together with `regular_accept_imp_restrictions`: the two subject sets coincide — nothing
+added, nothing removed).  Pigeonhole: the successor's subjects are pairwise distinct (C33),
+each occurs in the predecessor, and the numbers are equal. -/
+theorem regular_accept_none_removed {sis t p u} (h : Accepts sis t p u) (hty : u.type = .regular)
+    (k : Cls) (hk : k = .reg ∨ k = .root) :
+    ∀ q ∈ ofCls k p.certs, ∃ c ∈ ofCls k t.certs, c.2.subj = q.2.subj := by
+  obtain ⟨_, _, _, _, _, hrc, hgc, hreg, hroot⟩ := regular_accept_imp_restrictions h hty
+  have rules := update_accept_imp_valid h
+  have hnd : ((ofCls k t.certs).map (fun p => p.2.subj)).Nodup := by
+    rw [ofCls_subjects]
+    exact rules.subject_unique k (by rcases hk with rfl | rfl <;> simp)
+  have hsub : (ofCls k t.certs).map (fun p => p.2.subj) ⊆ (ofCls k p.certs).map (fun p => p.2.subj) := by
+    intro s hs
+    obtain ⟨c, hc, rfl⟩ := List.mem_map.mp hs
+    rcases hk with rfl | rfl
+    · obtain ⟨q, hq, hsq, _⟩ := hreg c hc
+      exact List.mem_map.mpr ⟨q, hq, hsq⟩
+    · obtain ⟨q, hq, hsq, _⟩ := hroot c hc
+      exact List.mem_map.mpr ⟨q, hq, hsq⟩
+  have hlen : ((ofCls k p.certs).map (fun p => p.2.subj)).length ≤
+      ((ofCls k t.certs).map (fun p => p.2.subj)).length := by
+    rcases hk with rfl | rfl <;> simp <;> omega
+  have hc := nodup_of_cover _ _ hnd hsub hlen
+  intro q hq
+  have : q.2.subj ∈ (ofCls k t.certs).map (fun p => p.2.subj) :=
+    hc.2 (List.mem_map.mpr ⟨q, hq, rfl⟩)
+  obtain ⟨c, hc', hs⟩ := List.mem_map.mp this
+  exact ⟨c, hc', hs⟩
+
 /-- **Proof of possession.**  Every voting certificate of the successor that is not
 byte-identical to the predecessor's certificate of the same class and subject — newly
 introduced or re-issued, sensitive or regular, in either update type — signed the TRC. -/
